@@ -40,6 +40,7 @@ class Ctx(object):
         self._known = self._load_known()
         self._printed = set()
         self._fam_reports = {}
+        self.replay_errors = []
         self._fam_skipped = {}
         self.max_reports_per_family = 8
 
@@ -157,6 +158,9 @@ class Ctx(object):
                            solver_output=solver_output, text=text)
             return True
         self.notes.append('candidate for %s did not replay: %s' % (obligation, jdump(res)[:300]))
+        if res.get('error'):
+            # the replayer itself crashed: a fault of the checking machinery, never a verdict
+            self.replay_errors.append('%s: %s' % (obligation, str(res.get('error'))[-600:]))
         return False
 
     # -------------------------------------------------------------- evidence
@@ -207,6 +211,10 @@ class Ctx(object):
               'violations=%d known=%d wall=%.1fs'
               % (self.pid, self.tier, level, obl, dis, len(und), len(self.bounded),
                  len(self.violations), len(self.known_hits), time.time() - self.t0))
+        if self.replay_errors:
+            print('CHECKER-FAULT: %d replay(s) crashed, e.g. %s' % (len(self.replay_errors),
+                                                                     self.replay_errors[0]))
+            return 3
         if self.violations:
             return 1
         if self.undecided_no_route:
